@@ -8,7 +8,9 @@ RULE = ("Generated operation histories over one DataContainer (or CornerDataCont
         "sparse and dense form (5 value types, arity 1-4, implicit or custom default), set (python / numpy scalars of every "
         "type, vectors of right / wrong length, homogeneous or mixed component types), get, out-of-range get/set on dense, "
         "in-place update of a value obtained by reading, append / += list / += tuple / += container (with or without its own "
-        "attributes), attribute clear, as_array, delete_attribute, container clear. After every step every attribute is read "
+        "attributes), attribute clear, as_array, delete_attribute, container clear; falsy values against non-falsy defaults, every "
+        "element written in a drawn order then exported, in-place component updates after a write in a narrower class, numpy arrays "
+        "of unusual shape / dtype as values (for these only sparse/dense agreement is demanded). After every step every attribute is read "
         "at every index in both storages and compared with a dict-with-default model. non-trivial = the history grows the "
         "container after an attribute was created and reads a never-written entry; distinct = distinct histories.")
 ASSUMPTIONS = ["strings are <= 32 characters (documented limit of the dense storage)", "|ints| <= 2**53 (exactly representable when widened to float), floats without NaN",
